@@ -49,7 +49,7 @@ func envOf(id int) map[string]any {
 	return map[string]any{
 		"a": r.a, "b": r.b, "z": r.z, "n": r.n,
 		"f": r.f, "g": r.g, "zf": r.zf,
-		"s": r.s, "h": r.h, "e": r.e, "num": r.num, "bad": "bad",
+		"s": r.s, "h": r.h, "e": r.e, "num": r.num, "bad": "bad", "pad": "  hi  ",
 		"t": r.t, "u": r.u, "off": false,
 		"big": int64(1234567),
 		"m": map[string]any{"k": r.k, "name": r.name, "ok": r.ok, "rate": r.rate,
@@ -58,7 +58,7 @@ func envOf(id int) map[string]any {
 		"st": Rec{Name: r.who, Age: r.age, Ok: r.sok, Score: r.score, In: Inner{X: r.inx, S: r.deep + "in"}},
 		"us": []map[string]any{
 			{"name": r.name + "0", "age": r.uage, "admin": r.adm},
-			{"name": "u1", "age": r.uage + 1, "admin": !r.adm},
+			{"name": "ub", "age": r.uage + 1, "admin": !r.adm},
 		},
 		"rs": []Rec{{Name: "r0", Age: r.age + 2, Ok: !r.sok, Score: r.score + 0.5}},
 	}
@@ -75,7 +75,7 @@ var (
 	// never zero in any environment (divisors)
 	nonzeroIntPaths   = []string{"a", "b", "n", "m.inner.x", "us[1].age"}
 	nonzeroFloatPaths = []string{"f", "g"}
-	envNames          = []string{"a", "b", "z", "n", "f", "g", "zf", "s", "h", "e", "num", "bad", "t", "u", "off", "big", "m", "xs", "fs", "ss", "bs", "st", "us", "rs"}
+	envNames          = []string{"a", "b", "z", "n", "f", "g", "zf", "s", "h", "e", "num", "bad", "pad", "t", "u", "off", "big", "m", "xs", "fs", "ss", "bs", "st", "us", "rs"}
 )
 
 // resolve walks a path of the forms a.b, xs[1], m["k"], m['k'] over the environment.
